@@ -13,6 +13,10 @@ type Engine struct {
 	// variableDepth is the number of variables that are currently being
 	// evaluated. See VariableExpr.
 	variableDepth int
+
+	// variablesBeingEvaluated are the names of the variables that are
+	// currently being evaluated, outermost first. See VariableExpr.
+	variablesBeingEvaluated []string
 }
 
 // Evaluate executes all of the expressions and returns the final result.
